@@ -15,7 +15,9 @@ sys.path.insert(0, os.path.dirname(os.path.abspath(__file__)))
 from vlib import *
 
 PID = 'C15'
-THEOREMS = ['C15_tentative_merged', 'C15_real_definitions_kept', 'C15_live_only_if_reachable', 'C15_live_if_reachable', 'C15_marking_monotone', 'C15_nonvacuous']
+THEOREMS = ['C15_tentative_merged', 'C15_real_definitions_kept', 'C15_live_only_if_reachable', 'C15_live_if_reachable', 'C15_marking_monotone', 'C15_nonvacuous',
+            # package emit (Properties_C15_emit.v)
+            'C15_emit_symtab', 'C15_emit_live_exists', 'C15_emit_closure_live', 'C15_emit_symbols', 'C15_emit_pic_same_symbols', 'C15_emit_no_redefinition', 'C15_emit_blocks_independent', 'C15_emit_anonymous_objects', 'C15_emit_gen_addr_table', 'C15_emit_extern_init_refuted', 'C15_emit_inline_first_refuted', 'C15_emit_fun_addr_now_emitted', 'C15_emit_fun_addr2_now_emitted', 'C15_emit_static_tls_local_now_tls', 'C15_emit_alignas_carried', 'C15_emit_nonvacuous']
 MODELRUN = os.path.join(VERIF, 'ocaml/modelrun')
 
 def nm_syms(obj):
@@ -102,7 +104,7 @@ def main():
         run.proof_broken.append('scratch build of /repo failed: ' + str(e)[-800:])
         return run.finish(dict(evaluations=0), [], [])
     wd = scratch_dir()
-    run.check_proofs(deps=['theories/Model/Linkage.vo', 'theories/Proofs/LinkageProofs.vo', 'theories/Proofs/LinkageComplete.vo'])
+    run.check_proofs(deps=['theories/Model/Linkage.vo', 'theories/Proofs/LinkageProofs.vo', 'theories/Proofs/LinkageComplete.vo'], extra=['emit'])
     NCORPUS = run_corpus(run, PID, src)          # minimised past failures first
     rc, o, e = sh([os.path.join(VERIF, 'ocaml/build.sh')], timeout=900)
     if rc != 0:
@@ -236,9 +238,14 @@ def main():
                 run.violation(dict(kind='multi-unit-behaviour', config=cfg, chibicc=c if c is not None else cw, gcc=g, units=texts,
                                    how='a.c b.c c.c built as: default | -fno-common | -fPIC | -fPIC with b.c c.c in a shared library | -static; program output'), dict(area='link', construct=cfg))
 
+    # ---------------- tie of package emit: cases evaluated by the Coq spec and model (one coqc call) and by the real compiler ----------------
+    tie_dist = {}; tie_e = tie_n = 0; tie_samples = []
+    if not os.environ.get('VERIF_SKIP_PROOFS'):
+        tie_e, tie_n, tie_dist, tie_samples = run_tie(run, 'emit', src, 70 if run.quick() else 700, 'unit')
     cov = dict(evaluations=evals, distinct_nontrivial=nontriv, input_distribution=dist, samples=samples,
                rule='(a) %d generated units: 2-6 object names each declared 1-4 times as tentative / defined / extern in external, static, thread-local and static thread-local flavours (valid orders only), 3-8 functions (static inline, static, external; forward declarations whose definition omits static; references by call and by address; cycles): nm symbol type and size of every name = gcc -fcommon; which objects are defined and which static inline functions are emitted = extracted model; (b) %d three-unit programs (common symbols in several units, extern references, same-named statics, static locals, TLS, string literals, static inline helpers) built five ways: output = gcc; builds gcc rejects must be rejected' % (NA, NB),
                traces_validated_against_impl=nontriv)
+    cov['rule'] = cov.get('rule', '') + ' ' + '(c) package emit: translation units generated from abstract declaration lists (2-8 names, 1-4 declarations each, every valid specifier combination incl. function-address initializers, TLS and _Alignas block statics), compiled under {-fcommon, -fno-common} x {non-PIC, -fPIC}: readelf symbol table = Coq spec = Coq model of GNU as on the modelled directives; -S directive and address-sequence skeleton = model'; cov['tie_emit'] = tie_dist; cov['evaluations'] = cov.get('evaluations', 0) + tie_e; cov['distinct_nontrivial'] = cov.get('distinct_nontrivial', 0) + tie_n
     return run.finish(cov,
         ['gcc 12 -O0 -fcommon (chibicc defaults to -fcommon) is the reference for symbol binding/section kind and for program behaviour; plain `inline` and `extern inline` (whose C11 semantics chibicc does not claim) are not generated',
          'the system linker and libc are trusted'],
